@@ -361,7 +361,7 @@ namespace adept {
 #define ADEPT_DEFINE_OPERATOR(OPERATOR, OPSYMBOL)		\
     template <class RType>					\
     FixedArray& OPERATOR(const RType& rhs) {			\
-      return *this = noalias(*this OPSYMBOL rhs);		\
+      return *this = noalias(*this) OPSYMBOL rhs;		\
     }
     ADEPT_DEFINE_OPERATOR(operator+=, +)
     ADEPT_DEFINE_OPERATOR(operator-=, -)
